@@ -7,7 +7,7 @@ import c02_units as u
 
 def run_mir(tier, seed):
     import csr
-    return mir_check.run_obligations([csr.ob_csr_accept], features="x509-parser")
+    return mir_check.run_obligations([csr.ob_csr_accept, csr.ob_spki_match], features="x509-parser")
 
 
 def spec(tier, seed):
